@@ -287,7 +287,7 @@ class FutScenario(object):
     def generate(self, rng):
         return gen_program(rng)
 
-    def run(self, program, decider):
+    def run(self, program, decider, chooser=None):
         s = core.Sched(decider, step_cap=20000, horizon=4096.0)
         run = FutRun(program, s)
         verdict = s.run(run.root)
